@@ -30,6 +30,9 @@ type Case struct {
 	K        int      `json:"k"`
 	DelayUs  int      `json:"delay_us"`
 	Procs    int      `json:"procs"`
+	// Stale: the outermost wrapper's function is DEFINED by an earlier run of the same
+	// environment (vm.Execute, background context) and only CALLED by the cancellable run
+	Stale bool `json:"stale,omitempty"`
 }
 
 var spinCores = []string{"loop", "loop_cond", "cfor", "cfor_nocond", "forin_nested", "forin_map", "recursion", "loop_in_switch", "loop_nested_break", "loop_continue"}
@@ -52,6 +55,7 @@ func gen(t *rapid.T) Case {
 	c.K = rapid.IntRange(1, 40).Draw(t, "k")
 	c.DelayUs = rapid.SampledFrom([]int{0, 1, 10, 50, 200, 1000, 2000}).Draw(t, "delay")
 	c.Procs = rapid.SampledFrom([]int{0, 0, 1, 2, 4}).Draw(t, "procs")
+	c.Stale = rapid.IntRange(0, 3).Draw(t, "stale") == 0
 	return c
 }
 
@@ -171,6 +175,25 @@ func source(c Case) string {
 	return body + "\np(999)\n"
 }
 
+// sourceParts splits the program into the definition of the outermost wrapper's function
+// and the rest, when the outermost wrapper defines a named function first.
+func sourceParts(c Case) (defs, rest string, ok bool) {
+	src := source(c)
+	if len(c.Wrappers) == 0 {
+		return "", src, false
+	}
+	head := fmt.Sprintf("func w%d(", len(c.Wrappers))
+	if !strings.HasPrefix(src, head) {
+		return "", src, false
+	}
+	// the definition ends at the first line that is exactly "}" (inner lines are indented)
+	i := strings.Index(src, "\n}\n")
+	if i < 0 {
+		return "", src, false
+	}
+	return src[:i+3], src[i+3:], true
+}
+
 // ---------- execution ----------
 
 type result struct {
@@ -244,6 +267,16 @@ func runCase(c Case, bound time.Duration) result {
 		return id
 	})
 	var res result
+	if c.Stale {
+		if defs, rest, ok := sourceParts(c); ok {
+			// an earlier run of the same environment defines the function
+			if _, err := vm.Execute(e, nil, defs); err != nil {
+				res.infra = "definition run failed: " + err.Error()
+				return res
+			}
+			src = rest
+		}
+	}
 	done := make(chan struct{})
 	go func() {
 		defer close(done)
@@ -290,7 +323,7 @@ func runCase(c Case, bound time.Duration) result {
 
 func oracle(c Case, o *h.Obs) *h.Fail {
 	src := source(c)
-	o.Key = fmt.Sprintf("%s|%s|%d|%d|%d", src, c.Mode, c.K, c.DelayUs, c.Procs)
+	o.Key = fmt.Sprintf("%s|%s|%d|%d|%d|%v", src, c.Mode, c.K, c.DelayUs, c.Procs, c.Stale)
 	o.Note = fmt.Sprintf("mode=%s k=%d delay=%dus procs=%d\n%s", c.Mode, c.K, c.DelayUs, c.Procs, src)
 	if c.Mode == "A" && !isSpin(c.Core) {
 		o.Excluded = "blocked core needs asynchronous cancellation"
@@ -320,6 +353,11 @@ func oracle(c Case, o *h.Obs) *h.Fail {
 		}
 	}
 	o.Class(fmt.Sprintf("depth_%d", len(c.Wrappers)))
+	if c.Stale {
+		if _, _, ok := sourceParts(c); ok {
+			o.Class("function_defined_by_an_earlier_run_" + c.Wrappers[len(c.Wrappers)-1])
+		}
+	}
 	o.NonTrivial = len(c.Wrappers) >= 1 && (r.ticks >= int64(c.K) || r.entered || c.Mode == "A")
 	site := c.Core + "|" + strings.Join(c.Wrappers, ">")
 	sig := func(clause string) string {
@@ -384,6 +422,6 @@ func TestC02(t *testing.T) {
 	c := h.New(t, "C02")
 	defer c.Finish()
 	ctxRef = c
-	c.Rule("program = core wrapped in 0..3 constructs; cores: for{}, for cond{}, C-style loops, nested for-in over slices/maps, recursion, loops in switch / with break / continue (spinning), blocked receive / send / two-value receive / range over a channel nobody serves; wrappers: script functions of arity 0,2,4 (direct path), 5 and variadic (reflect path), anonymous call, go + join (both go paths), try body / catch / finally, ?? on either side, ternary, deferred call, list element, Go-call argument, module body, if, switch case, for-in body; every level is followed by a sentinel probe. cancel: mode A from inside the k-th tick() host call, mode B asynchronously d microseconds after the core was entered; GOMAXPROCS in {default,1,2,4}. non-trivial = at least one wrapper and the cancel landed while the core was active; distinct = (source, mode, k, delay, procs). The callback wrapper (script function converted to a Go func) is the known finding F-callback-ctx: excluded from generation, reproduced from a committed replay")
+	c.Rule("program = core wrapped in 0..3 constructs; cores: for{}, for cond{}, C-style loops, nested for-in over slices/maps, recursion, loops in switch / with break / continue (spinning), blocked receive / send / two-value receive / range over a channel nobody serves; wrappers: script functions of arity 0,2,4 (direct path), 5 and variadic (reflect path), anonymous call, go + join (both go paths), try body / catch / finally, ?? on either side, ternary, deferred call, list element, Go-call argument, module body, if, switch case, for-in body; every level is followed by a sentinel probe. cancel: mode A from inside the k-th tick() host call, mode B asynchronously d microseconds after the core was entered; GOMAXPROCS in {default,1,2,4}; in a quarter of the cases the outermost function is defined by an earlier run (background context) of the same environment and only called by the cancellable run. non-trivial = at least one wrapper and the cancel landed while the core was active; distinct = (source, mode, k, delay, procs). The callback wrapper (script function converted to a Go func) is the known finding F-callback-ctx: excluded from generation, reproduced from a committed replay")
 	h.Run(c, "cancel", c.N(2500, 30000), gen, oracle)
 }
